@@ -19,6 +19,11 @@ func c06World(tp *Tape, env *Env) (*Plan, *Violation) {
 		InlinePct: 45, TagPct: 10, CondPct: 40, NonASCII: tp.Bool("nonascii"), Faults: tp.Int(1, 2, "nfaults"),
 	}
 	cfg.Handlers = drawHandlers(tp, 2)
+	if len(cfg.Handlers) > 0 && tp.Chance(12, "oddchan") {
+		// a handler whose result is a send-only channel or a channel of a concrete error type
+		cfg.Handlers[0].Shape = []string{"conv_sendchan", "conv_errtypechan"}[tp.Int(0, 1, "oddchankind")]
+		env.St.probe("handler_with_an_unusual_channel_result")
+	}
 	g := &gen{tp: tp, cfg: cfg}
 	prog := g.program()
 	g.ensureYieldingCycles(prog)
